@@ -46,6 +46,7 @@ func NewReport(prop string) *Report {
 }
 
 func (r *Report) add(rule, key, pos, status, detail string, path []string) {
+	key = strings.ReplaceAll(key, " ", "_") // keys are single tokens in the -list output and in known_findings.json
 	r.Obs = append(r.Obs, Ob{Rule: rule, Key: rule + "|" + key, Pos: pos, Status: status, Detail: detail, Path: path})
 }
 
